@@ -516,7 +516,7 @@ func (e *Engine) runPath(ctx *TermCtx, solver *Solver, fn *ssa.Function, spec Ha
 					run.ended = x.reason
 				case abortErr:
 					run.ended = "abort"
-					e.abort(fmt.Sprintf("INCONCLUSIVE %s: %s (at %s)", spec.Func, x.msg, s.site()))
+					e.abort(fmt.Sprintf("INCONCLUSIVE %s: %s (at %s)", spec.Func, x.msg, s.stack()))
 				default:
 					run.ended = "abort"
 					e.abort(fmt.Sprintf("INCONCLUSIVE %s: engine panic: %v at %s\n%s", spec.Func, r, s.site(), debug.Stack()))
